@@ -537,6 +537,14 @@ class Gen(object):
             return [d(st.sampled_from(['pipe', 'pipe', 'tuple'])), outer]
         if k == 14 and isinstance(value, dict) and 'kids' in value:
             # Ref recursion over a tree-shaped target: {'v': .., 'kids': [...]}
+            if d(st.booleans()):
+                # the same name defined again INSIDE the definition, with another body that recurses too: every
+                # Ref('node') resolves to the nearest enclosing definition
+                inner = ['ref', 'node', ['dict', [[['k', 'w'], ['path', 'v']],
+                                                  [['k', 'sub'], ['tuple', [['path', 'kids'], ['list', ['refuse', 'node']]]]]], 'dict']]
+                return ['ref', 'node', ['dict', [[['k', 'v'], ['path', 'v']],
+                                                 [['k', 'kids'], ['tuple', [['path', 'kids'], ['list', ['refuse', 'node']]]]],
+                                                 [['k', 'again'], inner]], 'dict']]
             return ['ref', 'node', ['dict', [[['k', 'v'], ['path', 'v']],
                                              [['k', 'kids'], ['tuple', [['path', 'kids'], ['list', ['refuse', 'node']]]]]], 'dict']]
         return self.leaf(value)
@@ -591,6 +599,14 @@ REF_SPEC = ['ref', 'node', ['dict', [[['k', 'v'], ['path', 'v']],
                                     [['k', 'kids'], ['tuple', [['path', 'kids'], ['list', ['refuse', 'node']]]]]], 'dict']]
 
 
+# the same name defined again INSIDE the definition, with another body that recurses too
+_INNER_DEF = ['ref', 'node', ['dict', [[['k', 'w'], ['path', 'v']],
+                                       [['k', 'sub'], ['tuple', [['path', 'kids'], ['list', ['refuse', 'node']]]]]], 'dict']]
+REF_REDEFINED = ['ref', 'node', ['dict', [[['k', 'v'], ['path', 'v']],
+                                          [['k', 'kids'], ['tuple', [['path', 'kids'], ['list', ['refuse', 'node']]]]],
+                                          [['k', 'again'], _INNER_DEF]], 'dict']]
+
+
 def gen_tree_target(draw, dd=2):
     kids = [gen_tree_target(draw, dd - 1) for _ in range(draw(st.integers(0, 2)))] if dd > 0 else []
     return ['dict', [['v', ['i', draw(st.integers(0, 9))]], ['kids', ['list', kids]]]]
@@ -599,7 +615,9 @@ def gen_tree_target(draw, dd=2):
 def gen(draw):
     if draw(st.sampled_from(range(12))) == 0:
         # Ref recursion over a tree-shaped target, alone / as a chain step / as a dict value
-        form = draw(st.sampled_from(['plain', 'chain', 'dictval']))
+        form = draw(st.sampled_from(['plain', 'chain', 'dictval', 'redefined']))
+        if form == 'redefined':
+            return {'target': gen_tree_target(draw), 'spec': REF_REDEFINED}
         spec = REF_SPEC if form == 'plain' else (['tuple', [['T', []], REF_SPEC]] if form == 'chain'
                                                  else ['dict', [[['k', 'tree'], REF_SPEC], [['k', 'n'], ['path', 'v']]], 'dict'])
         return {'target': gen_tree_target(draw), 'spec': spec}
